@@ -11,10 +11,10 @@ import (
 // chain interleave cond sample  (+ "badregex-rowkey/family/qual/value" carry a raw invalid pattern)
 type Filter struct {
 	Kind string
-	Flag bool    // pass / block / strip
-	Re   *Re     // regex filters
-	Raw  string  // raw (invalid) pattern for bad-regex variants
-	Fam  string  // colrange
+	Flag bool   // pass / block / strip
+	Re   *Re    // regex filters
+	Raw  string // raw (invalid) pattern for bad-regex variants
+	Fam  string // colrange
 	// Range bounds: mode 0 = unset, 1 = closed, 2 = open
 	SMode, EMode int
 	Start, End   string
@@ -73,10 +73,10 @@ func (f *Filter) String() string {
 
 // EvalResult is what the documented semantics say about one row.
 type EvalResult struct {
-	Cells   []Cell
-	Merged  bool // cells came out of an interleave merge (family order then unspecified)
-	MustErr bool // an invalid argument was applied to at least one cell / non-empty row
-	MayErr  bool // an invalid argument exists but was only reached with nothing to apply it to
+	Cells     []Cell
+	Merged    bool // cells came out of an interleave merge (family order then unspecified)
+	MustErr   bool // an invalid argument was applied to at least one cell / non-empty row
+	MayErr    bool // an invalid argument exists but was only reached with nothing to apply it to
 	Ambiguous bool // see Evaluator.Ambiguous
 }
 
@@ -91,7 +91,9 @@ type Evaluator struct {
 }
 
 // Eval applies f to the ordered cells of one row. A nil filter passes everything.
-func (e *Evaluator) Eval(f *Filter, key string, in []Cell) EvalResult { return e.eval(f, key, in, false) }
+func (e *Evaluator) Eval(f *Filter, key string, in []Cell) EvalResult {
+	return e.eval(f, key, in, false)
+}
 
 // distinctDup reports whether the list holds two cells of one (family, qualifier, timestamp) that differ in
 // value or labels; their relative order after an interleave is unspecified.
